@@ -153,7 +153,7 @@ def onRunOkEv (kEv : KEv) (rest : List Action) (c : CS) (r : StepR) (out : List 
   let a' := advance r.act
   if a'.exec.isEmpty then
     let fin := if a'.clientId != 0 then [Out.finish a'.clientId .success] else []
-    let dev := { r.dev with acts := rest, loggedIn := r.dev.loggedIn || a'.com == 0, statActions := r.dev.statActions + 1 }
+    let dev := { r.dev with acts := rest, loggedIn := r.dev.loggedIn || a'.com == 0, statActions := r.dev.statActions + 1, xmStr := none, xmResult := false, xmUsed := false }
     kEv { c with dev := dev } r.oracle (out ++ fin) tmo
   else kEv { c with dev := { r.dev with acts := a' :: rest } } r.oracle out tmo
 
@@ -171,7 +171,7 @@ def onRunEv (kEv : KEv) (rest : List Action) (c : CS) (a : Action) (o : Oracle) 
 
 theorem failAll_args (rest : List Action) (c : CS) (a : Action) (o : Oracle) (out : List Out) (tmo : Option Time) :
     (failAll rest c a o out tmo).1.dev.args = c.dev.args := by
-  have hr := reconnectDev_devFrame { c with dev := { c.dev with acts := [] } } tmo
+  have hr := reconnectDev_devFrame { c with dev := { c.dev with acts := [], xmStr := none, xmResult := false, xmUsed := false } } tmo
   unfold failAll
   dsimp only
   split
